@@ -31,6 +31,8 @@ for P in "$@"; do
 done
 git -C /repo checkout -- .
 trap - EXIT
+# evidence written while the patch was applied does not describe the unchanged tree: restore the committed files
+git -C /verif checkout -- evidence/ 2>/dev/null
 echo "== demo without patch (expect PASS / exit 0)"
 QKERAS_REPO=/repo QK_REPO=/repo TF_CPP_MIN_LOG_LEVEL=3 /venv/bin/python "$SD/demo.py" > "$SD/demo_clean.out" 2>&1; echo "demo exit: $?"; tail -1 "$SD/demo_clean.out" | cut -c1-200
 git -C /repo status --short | head -3
